@@ -103,7 +103,8 @@ def required_cells(tier):
             'history:ordered-pair', 'history:random', 'history:fresh-object', 'module-dict-checks', 'baseline-children',
             'session-options:none', 'session-options:given', 'mode:native', 'mode:pytest'] +
             ['history:' + h for h, _ in PATCH_HISTORIES] +
-            ['history:module-installs-underscore:2', 'history:module-installs-underscore:4'])
+            ['history:module-installs-underscore:2', 'history:module-installs-underscore:4',
+             'history:module-installs-underscore:5'])
 
 
 REQ_PACKAGES = ['json', 'email', 'xml', 'logging', 'http', 'urllib', 'concurrent', 'importlib', 'unittest', 'collections',
@@ -464,7 +465,28 @@ def second():
         >>> print(_('b'))
         T:b
     """
+def raises_expected():
+    """
+    Example:
+        >>> T.append("raises_expected")
+        >>> for k in [1]:
+        ...     int("zz")
+        Traceback (most recent call last):
+        ValueError: invalid literal for int() with base 10: 'zz'
+        >>> T.append("after the expected exception")
+    """
+def raises_hidden():
+    """
+    Example:
+        >>> T.append("raises_hidden")
+        >>> for k in [1, 2]:
+        ...     print(k if k == 1 else int("zz"))
+        1
+        >>> T.append("never reached")
+    """
 '''
+UNDERSCORE_EXPECT = {'first': 'passed', 'echo': 'passed', 'second': 'passed', 'raises_expected': 'passed',
+                     'raises_hidden': 'failed:ValueError'}
 
 
 def probe_module_installs_underscore(ctx):
@@ -478,7 +500,8 @@ def probe_module_installs_underscore(ctx):
         f.write(UNDERSCORE_MODULE)
     had = getattr(builtins, '_', None)
     try:
-        for hist in (['first', 'second'], ['first', 'echo', 'second', 'first'], ['echo', 'first', 'echo', 'second']):
+        for hist in (['first', 'second'], ['first', 'echo', 'second', 'first'], ['echo', 'first', 'echo', 'second'],
+                     ['first', 'raises_expected', 'raises_hidden', 'second', 'raises_expected']):
             for mode in ('native', 'pytest'):
                 sys.modules.pop(modname, None)
                 if hasattr(builtins, '_'):
@@ -489,10 +512,13 @@ def probe_module_installs_underscore(ctx):
                     ob = observe(objs[name], 'B', mode)
                     ctx.evaluation()
                     ctx.event('history_runs_compared')
-                    if ob[0] != 'passed':
+                    if not ob[0].startswith(UNDERSCORE_EXPECT[name]) or (
+                            name == 'raises_expected' and ob[2] != ['raises_expected', 'after the expected exception']) or (
+                            name == 'raises_hidden' and ob[2] != ['raises_hidden']):
                         ctx.violation('history-dependent', 'the module under test installs builtins._ when it is imported; doctest '
-                                      '%s must pass whatever ran before it, after %r (mode %s) it gives %s, logged output %r'
-                                      '\n--- module ---\n%s' % (name, hist[:step], mode, ob[0], ob[1], UNDERSCORE_MODULE),
+                                      '%s must give %s whatever ran before it, after %r (mode %s) it gives %s, logged output %r, '
+                                      'event log %r\n--- module ---\n%s' % (name, UNDERSCORE_EXPECT[name], hist[:step], mode, ob[0],
+                                                                             ob[1], ob[2], UNDERSCORE_MODULE),
                                       {'probe': 'module-installs-underscore'}, history=hist[:step + 1])
                         ok = False
                         break
